@@ -13,7 +13,8 @@ LEVEL = "fault_enumeration"
 TECHNIQUE = (
     "property-based fault enumeration: for every generated save configuration an uninjected run counts the file-system "
     "effect points (temp dir creation, temp file open, each tensor write start/middle/end, callbacks, mode copy, "
-    "rename, cleanup, final model write); then EVERY point is hit twice - by an injected OSError and by killing a "
+    "rename, cleanup, final model write); then EVERY point is hit three times - by an injected OSError, by an injected KeyboardInterrupt (a BaseException that "
+    "is not an Exception) and by killing a "
     "forked child with os._exit - and the directory is inspected against the old/new reference bytes"
 )
 LEVEL_TEXT = (
@@ -255,7 +256,7 @@ def execute(case):
         # ---- enumerate every point, both modes -----------------------------------------------------------
         for k in points:
             label = labels[k]
-            for mode in ("exc", "die"):
+            for mode in ("exc", "kbd", "die"):
                 wdk = os.path.join(root, f"p{k}{mode}")
                 os.makedirs(wdk)
                 inj_k = [None]
@@ -267,8 +268,8 @@ def execute(case):
                     target = None  # tensor-bound: resolved by label below
                 evals += 1
                 raised = None
-                if mode == "exc":
-                    with faultfs.Injector(target=target, mode="exc") as inj2:
+                if mode in ("exc", "kbd"):
+                    with faultfs.Injector(target=target, mode=mode) as inj2:
                         if target is None:
                             _bind_label(inj2, label)
                         inj_k[0] = inj2
@@ -311,7 +312,7 @@ def execute(case):
                     for kf, vf in before2.items():
                         if vf is not None and kf != dest_rel and after2.get(kf) != vf:
                             fails.append((f"other-file-changed/{mode}@{site}", f"fault at #{k} {label}: unrelated pre-existing file {kf} changed"))
-                if mode == "exc":
+                if mode in ("exc", "kbd"):
                     if raised is None:
                         fails.append((f"fault-swallowed@{site}", f"injected OSError at point #{k} {label} did not reach the caller"))
                     if not sharded and before_rename:
